@@ -9,11 +9,6 @@ open LexVerif.Proof.PNTotal (Adv csum step_adv)
 
 variable {c : Cfg}
 
-theorem peek_ok (cx : Ctx c) (k : Comp) (b : Bytes) : ∃ r, peek c k b = .ok r := by
-  cases hp : peek c k b with
-  | error e => exact absurd ((peek_error_iff c k b).mp ⟨e, hp⟩) (cx.skipOk k)
-  | ok r => exact ⟨r, rfl⟩
-
 theorem iterNext_safe (cx : Ctx c) (k : Comp) (b : Bytes) : Safe (iterNext c k b) (fun _ => True) := by
   obtain ⟨⟨v, b1⟩, hp⟩ := peek_ok cx k b
   unfold iterNext
@@ -121,7 +116,7 @@ theorem isConsumed_safe (cx : Ctx c) (k : Comp) (b : Bytes) (hb : Bytes.Valid b)
     | none => simp at h
     | some x => exact get_lt hx.symm
 
-theorem parseCompleteNumber_safe (cx : Ctx c) (hi : PeekTriv c .integer) (hf : PeekTriv c .fraction) (o : POpts)
+theorem parseCompleteNumber_safe (cx : Ctx c) (hi : Good c .integer) (hf : Good c .fraction) (o : POpts)
     (ox : OCtx c o) (b : Bytes) (neg : Bool) (hb : b.index < b.slc.length) :
     Safe (parseCompleteNumber c o b neg) (fun _ => True) := by
   unfold parseCompleteNumber
@@ -132,7 +127,7 @@ theorem parseCompleteNumber_safe (cx : Ctx c) (hi : PeekTriv c .integer) (hf : P
   · trivial
   · exact Safe.err
 
-theorem parseFloatSyntax_safe (cx : Ctx c) (hi : PeekTriv c .integer) (hf : PeekTriv c .fraction) (o : POpts)
+theorem parseFloatSyntax_safe (cx : Ctx c) (hi : Good c .integer) (hf : Good c .fraction) (o : POpts)
     (ox : OCtx c o) (isPartial : Bool) (input : List Nat) :
     Safe (parseFloatSyntax c o isPartial input) (fun _ => True) := by
   unfold parseFloatSyntax
